@@ -115,16 +115,26 @@ BASE = [b"GET / HTTP/1.1\r\nHost: a.b\r\n\r\n",
 
 # ------------------------------------------------------------------ oracle
 def head_of(blk):
-    """(lines before the blank line, found-terminator)"""
+    """(lines before the blank line, the blank line | None)"""
     lines, cur = [], b""
     for ch in blk:
         cur += bytes([ch])
         if ch == 10:
             if cur in (b"\n", b"\r\n"):
-                return lines, True
+                return lines, cur
             lines.append(cur)
             cur = b""
-    return lines, False
+    return lines, None
+
+
+def reqline_target(rl):
+    """request-target of a request line: everything between the first SP and the final ' HTTP/x.y' (None if the
+    line does not have that shape)"""
+    rl = rl.rstrip(b"\n")
+    if rl.endswith(b"\r"):
+        rl = rl[:-1]
+    m = re.fullmatch(rb"([^ ]*) (.*) (HTTP/[0-9]\.[0-9])", rl, re.S)
+    return m.group(2) if m else None
 
 
 def oracle(line, out):
@@ -141,16 +151,23 @@ def oracle(line, out):
     strict = bool(opts & HS)
     blk = C.unhx(t[3])
     lines, term = head_of(blk)
-    if not term or not lines:
+    if term is None or not lines:
         return "accepted an unterminated head"
     head = b"".join(lines)
     if b"\x00" in head:
         return "NUL byte in request line / header section accepted"
     fields = [l for l in lines[1:] if l[:1] not in (b" ", b"\t")]
     if strict:
-        for l in lines:
+        for l in lines + [term]:
             if not l.endswith(b"\r\n"):
                 return "bare LF line end accepted in strict mode"
+    # control characters (NUL .. 0x1f, DEL) anywhere in the request-target -- also behind a '#' --, strict mode, for
+    # every parse option set configfile.c can produce (url-ctrls-reject implies url-normalize); absolute-form only
+    # with host-strict (the authority is then checked as a host name)
+    tgt = reqline_target(lines[0])
+    if strict and tgt is not None and (not (opts & CR_) or (opts & UN)) and \
+            (tgt[:1] == b"/" or tgt == b"*" or (opts & HOSTS)) and any(c < 32 or c == 127 for c in tgt):
+        return "control character in the request-target accepted in strict mode"
     names = []
     for l in fields:
         if b":" in l:
@@ -169,6 +186,10 @@ def oracle(line, out):
             return "non-numeric / overflowing Content-Length accepted"
     te_vals = [v.strip(b" \t\r\n") for _, v in te]
     if not folded:
+        if len(te) >= 2:
+            return "repeated Transfer-Encoding accepted"
+        if te and not te_vals[0]:
+            return "empty Transfer-Encoding accepted"
         for v in te_vals:
             if v and v.lower() != b"chunked":
                 return "Transfer-Encoding other than chunked accepted"
@@ -209,6 +230,10 @@ def dechunk_ref(data, maxfield):
             else:
                 break
         if not hexd:
+            return ("bad",)
+        # chunk-size [BWS] [";" chunk-ext] CRLF -- no control character (other than HT) in the line, in particular
+        # no bare CR (RFC 9112 7.1; chunk-ext otherwise not examined)
+        if not re.fullmatch(rb"[ \t]*(;[^\x00-\x08\x0a-\x1f\x7f]*)?", ln[len(hexd):-2]):
             return ("bad",)
         size = int(hexd, 16)
         i = j + 1
@@ -283,6 +308,33 @@ def gen_req(ctx):
                     for kind in (0, 1):
                         lines.append("req %d 8192 %s" % (o, C.hx(corrupt1(blk, i, b, kind))))
                 lines.append("req %d 8192 %s" % (o, C.hx(corrupt1(blk, i, 0, 2))))
+    # directed: control characters, NUL, SP, DEL, 0xff in the request-target -- in the path, in the query, behind a
+    # '#' (which URL normalisation drops unread), in absolute-form -- under EVERY parse option set
+    for o in OPTS:
+        for m in (b"GET", b"POST", b"CONNECT", b"OPTIONS"):
+            for tmpl in (b"/a%sb", b"/a?q=%s", b"/a#%s", b"/a#b%sc", b"/a?q#%s", b"/#%s#", b"http://ex.org/a#%s",
+                         b"http://ex.org%s/a", b"/a%%00#%s", b"#%s"):
+                for bad in (0, 1, 9, 10, 13, 27, 31, 32, 127, 128, 255):
+                    if tmpl.count(b"%s") != 1:
+                        continue
+                    tgt = tmpl % bytes([bad])
+                    blk = m + b" " + tgt + b" HTTP/1.1\r\nHost: a.b\r\n" + (b"Content-Length: 0\r\n" if m == b"POST" else b"") + b"\r\n"
+                    lines.append("req %d 8192 %s" % (o, C.hx(blk)))
+    # directed: the blank line that ends the head as bare LF; empty / repeated Transfer-Encoding (+ Content-Length)
+    for o in OPTS:
+        for rlend, fend in ((b"\r\n", b"\r\n"), (b"\n", b"\n"), (b"\r\n", b"\n")):
+            for term in (b"\n", b"\r\n"):
+                lines.append("req %d 8192 %s" % (o, C.hx(b"GET / HTTP/1.1" + rlend + b"Host: a.b" + fend + b"X: y" + fend + term)))
+                lines.append("req %d 8192 %s" % (o, C.hx(b"GET / HTTP/1.0" + rlend + term)))
+        for te in (b"", b" ", b"\t", b"chunked", b"Chunked ", b"x"):
+            for te2 in (None, b"", b"chunked", b"CHUNKED"):
+                for cl in (None, b"3", b"0"):
+                    for order in (0, 1, 2):
+                        fl = [b"Transfer-Encoding:" + te] + ([b"transfer-encoding: " + te2] if te2 is not None else []) + \
+                            ([b"Content-Length: " + cl] if cl is not None else [])
+                        fl = fl[order % len(fl):] + fl[:order % len(fl)]
+                        blk = b"POST /p HTTP/1.1\r\nHost: a.b\r\n" + b"".join(f + b"\r\n" for f in fl) + b"\r\n"
+                        lines.append("req %d 8192 %s" % (o, C.hx(blk)))
     # limits: many lines / long lines
     for o in OPTS[:3]:
         for nl in (100, 8188, 8189, 8190, 8191):
@@ -301,7 +353,7 @@ def chunk_stream(rng, ok):
         data = bytes(rng.choice(b"ab\r\n0;") for _ in range(n))
         size = (b"%x" % n) if rng.random() < 0.7 else (b"%X" % n if rng.random() < 0.5 else b"0" * rng.randint(1, 3) + b"%x" % n)
         ext = rng.choice([b"", b"", b"", b";a=b", b" ;x", b"\t", b";"]) if ok else \
-            rng.choice([b"", b"x", b" y", b";a\rb", b"\r", b" \t;q", b"g"])
+            rng.choice([b"", b"x", b" y", b";a\rb", b"\r", b" \t;q", b"g", b";\x01", b";a\x7f", b"\rXYZ", b";a=\"b\x0bc\"", b" ;\x1b"])
         out += size + ext + b"\r\n" + data + (b"\r\n" if ok or rng.random() < 0.8 else rng.choice([b"\n", b"\r", b"\rX", b"XX", b""]))
     last = rng.choice([b"0", b"00", b"0;x"]) if ok else rng.choice([b"0", b"", b"0x", b" 0", b"-0"])
     tr = rng.choice([b"", b"", b"Foo: bar\r\n", b"A: b\r\nC: d\r\n"])
@@ -614,7 +666,8 @@ def break_message(rng, head, body, kind):
     """turn a well-formed message into one of the ambiguous / invalid class"""
     lines = head.split(b"\r\n")[:-2]
     how = rng.choice(["dup-cl", "dup-cl-same", "cl-nonnum", "te-other", "te-10", "te-cl", "ctl-target", "ctl-value",
-                      "ws-colon", "bare-lf", "nul", "no-host", "bad-chunk", "corrupt", "grammar", "cl-short"])
+                      "ws-colon", "bare-lf", "nul", "no-host", "bad-chunk", "corrupt", "grammar", "cl-short",
+                      "ctl-frag", "bare-lf-term", "te-empty", "te-dup", "chunk-ext-ctl"])
     if how in ("dup-cl", "dup-cl-same"):
         n = len(body)
         lines.insert(rng.randint(1, len(lines)), b"Content-Length: %d" % (n if how == "dup-cl-same" else n + 1))
@@ -646,6 +699,33 @@ def break_message(rng, head, body, kind):
         i = rng.randrange(1, len(p[1]) + 1)
         p[1] = p[1][:i] + bytes([rng.choice([1, 8, 9, 11, 12, 13, 27, 31, 127, 0])]) + p[1][i:]
         lines[0] = b" ".join(p)
+    elif how == "ctl-frag":
+        # control character / NUL / SP / DEL behind a '#' (URL normalisation drops the fragment unread)
+        p = lines[0].split(b" ")
+        p[1] = p[1] + rng.choice([b"#", b"#x", b"?q#", b"#a#"]) + bytes([rng.choice([0, 1, 9, 13, 27, 31, 32, 127])]) + rng.choice([b"", b"y"])
+        lines[0] = b" ".join(p)
+    elif how == "bare-lf-term":
+        return b"\r\n".join(lines) + b"\r\n\n", body, how
+    elif how in ("te-empty", "te-dup"):
+        lines = [l for l in lines if not l.lower().startswith((b"content-length", b"transfer-encoding"))]
+        lines[0] = b"POST /echo.pl HTTP/1.1"
+        if not any(l.lower().startswith(b"host") for l in lines):
+            lines.append(b"Host: a")
+        if how == "te-empty":
+            body = b"abc"
+            two = [b"Transfer-Encoding:" + rng.choice([b"", b" ", b"\t "]), b"Content-Length: 3"]
+        else:
+            body = enchunk(rng, b"abc")
+            two = [b"Transfer-Encoding: chunked", rng.choice([b"Transfer-Encoding: chunked", b"transfer-encoding: CHUNKED"])]
+        rng.shuffle(two)
+        lines += two
+    elif how == "chunk-ext-ctl":
+        lines = [l for l in lines if not l.lower().startswith((b"content-length", b"transfer-encoding"))]
+        lines.append(b"Transfer-Encoding: chunked")
+        lines[0] = b"POST /echo.pl HTTP/1.1"
+        if not any(l.lower().startswith(b"host") for l in lines):
+            lines.append(b"Host: a")
+        body = b"5" + rng.choice([b"\rXYZ", b";\x01", b";a\rb", b" ;\x7f", b";a=\"\x0b\""]) + b"\r\nhello\r\n0\r\n\r\n"
     elif how == "ctl-value":
         lines.insert(rng.randint(1, len(lines)), b"X-Bar: a" + bytes([rng.choice([1, 8, 11, 12, 13, 27, 31, 127, 0])]) + b"b")
     elif how == "ws-colon":
@@ -859,6 +939,7 @@ def ref_head(data, i, strict, first):
         ln = data[j:k + 1]
         j = k + 1
         if ln in (b"\n", b"\r\n"):
+            term = ln
             break
         lines.append(ln)
     end = j
@@ -867,7 +948,7 @@ def ref_head(data, i, strict, first):
     block = data[i:end]
     if b"\x00" in block:
         return dict(kind="reject", why="NUL byte in the request line / header section")
-    bare_lf = any(not l.endswith(b"\r\n") for l in lines)
+    bare_lf = any(not l.endswith(b"\r\n") for l in lines + [term])
     rl = lines[0].rstrip(b"\r\n")
     parts = rl.split(b" ")
     if len(parts) != 3 or parts[2] not in (b"HTTP/1.0", b"HTTP/1.1") or not parts[0] or not parts[1]:
@@ -912,8 +993,7 @@ def ref_head(data, i, strict, first):
         why = why or "non-numeric / overflowing Content-Length"
     te_vals = [v for v, _ in te if v]
     if len(te) != len(te_vals) or len(te_vals) > 1:
-        if not why:
-            return dict(kind="other", why="empty or repeated Transfer-Encoding field")
+        why = why or "Transfer-Encoding other than exactly chunked (empty or repeated field)"
     if te_vals and te_vals[0].lower() != b"chunked":
         why = why or "Transfer-Encoding other than chunked"
     if te_vals and not v11:
